@@ -142,3 +142,14 @@ define void @f(x86_mmx %x) {
 @c = global %"2" zeroinitializer
 @e = global %"quoted name" zeroinitializer
 @f = global %"007" zeroinitializer
+;;; ATOM types/alias-of-scalar-chain
+%b = type i32
+%a = type %b
+%v = type <2 x %a>
+@g = global %a 0
+@h = global %b 1
+@i = global %v <i32 1, i32 2>
+;;; ATOM types/alias-of-struct-unused
+%a = type %b
+%b = type { i32, %b* }
+@h = global %b zeroinitializer
